@@ -97,6 +97,36 @@ class BatchRepeatLinearOperator(LinearOperator):
         return res
 
     def _getitem(self, row_index: IndexType, col_index: IndexType, *batch_indices: IndexType) -> LinearOperator:
+        # Member j of a repeated batch dimension (base size b, repeat r) is member j % b of the base operator. Whenever
+        # every batch index can be translated this way without leaving the slice / int forms - full slices, ints, and
+        # slices over dimensions that are only repeated (b == 1) or not repeated at all (r == 1) - index the base
+        # operator itself and repeat the result: this keeps the structure of any base class.
+        base_indices, new_repeat, translated = [], [], len(batch_indices) == len(self.batch_repeat)
+        if translated:
+            for index, base_size, repeat in zip(batch_indices, self.base_linear_op.batch_shape, self.batch_repeat):
+                if isinstance(index, int):
+                    base_indices.append(index % base_size)
+                elif not isinstance(index, slice):
+                    translated = False
+                    break
+                elif repeat == 1:
+                    base_indices.append(index)
+                    new_repeat.append(1)
+                elif base_size == 1:
+                    base_indices.append(slice(None, None, None))
+                    new_repeat.append(len(range(repeat)[index]))
+                elif index == slice(None, None, None):
+                    base_indices.append(index)
+                    new_repeat.append(repeat)
+                else:
+                    translated = False
+                    break
+        if translated:
+            res = self.base_linear_op._getitem(row_index, col_index, *base_indices)
+            if all(repeat == 1 for repeat in new_repeat):
+                return res
+            return res.repeat(*new_repeat, 1, 1)
+
         args = []
         kwargs = self.base_linear_op._kwargs
         num_base_batch_dims = len(self.base_linear_op.batch_shape)
